@@ -6,6 +6,8 @@
    slot of the three arrays together. -/
 import TFV.Generated.Src.TheFittest_get
 import TFV.Generated.Src.EA_from_population_g_to_fitness
+import TFV.Generated.Src.DE_from_population_g_to_fitness
+import TFV.Generated.Src.SHAGA_from_population_g_to_fitness
 
 namespace TFV.SrcTie
 open TFV.Generated.Src TFV
@@ -33,5 +35,45 @@ theorem C02_src_evaluation_step (elitism : Bool) (g ph0 fit0 : List Int) (r0g r0
     have gg : ∀ (a b c' : Int), Imp.geti [a, b, c'] (0 : Int) = a ∧ Imp.geti [a, b, c'] (1 : Int) = b ∧ Imp.geti [a, b, c'] (2 : Int) = c' :=
       fun _ _ _ => ⟨rfl, rfl, rfl⟩
     simp [EA_from_population_g_to_fitness, hrec, hg, e1, e2, e3, (gg rg rp rf).1, (gg rg rp rf).2.1, (gg rg rp rf).2.2]
+
+/-- the differential-evolution family (DE, jDE, SHADE inherit it): the population was already merged; the record is updated from it, then the elite goes into the last slot -/
+theorem C02_src_de_record_step (elitism : Bool) (g ph fit : List Int) (r0g r0p r0f c : Int)
+    (recordFn : List Int → List Int → List Int → Nat → List Int) (rg rp rf : Int)
+    (hrec : recordFn g ph fit 0 = [rg, rp, rf])
+    (hne : elitism = true → g ≠ [] ∧ ph ≠ [] ∧ fit ≠ []) :
+    DE_from_population_g_to_fitness elitism g ph fit r0g r0p r0f c recordFn =
+      some (if elitism then [Imp.setlast g rg, Imp.setlast ph rp, Imp.setlast fit rf, [rg, rp, rf, c]]
+            else [g, ph, fit, [rg, rp, rf, c]]) := by
+  have hg := C01_src_thefittest_get rg rp rf c
+  cases elitism with
+  | false => simp [DE_from_population_g_to_fitness, hrec, Imp.geti]
+  | true =>
+    obtain ⟨h1, h2, h3⟩ := hne rfl
+    have e1 : g.isEmpty = false := by cases g <;> simp_all
+    have e2 : ph.isEmpty = false := by cases ph <;> simp_all
+    have e3 : fit.isEmpty = false := by cases fit <;> simp_all
+    have gg : ∀ (a b c' : Int), Imp.geti [a, b, c'] (0 : Int) = a ∧ Imp.geti [a, b, c'] (1 : Int) = b ∧ Imp.geti [a, b, c'] (2 : Int) = c' :=
+      fun _ _ _ => ⟨rfl, rfl, rfl⟩
+    simp [DE_from_population_g_to_fitness, hrec, hg, e1, e2, e3, (gg rg rp rf).1, (gg rg rp rf).2.1, (gg rg rp rf).2.2]
+
+/-- SHAGA's own copy of the same step -/
+theorem C02_src_shaga_record_step (elitism : Bool) (g ph fit : List Int) (r0g r0p r0f c : Int)
+    (recordFn : List Int → List Int → List Int → Nat → List Int) (rg rp rf : Int)
+    (hrec : recordFn g ph fit 0 = [rg, rp, rf])
+    (hne : elitism = true → g ≠ [] ∧ ph ≠ [] ∧ fit ≠ []) :
+    SHAGA_from_population_g_to_fitness elitism g ph fit r0g r0p r0f c recordFn =
+      some (if elitism then [Imp.setlast g rg, Imp.setlast ph rp, Imp.setlast fit rf, [rg, rp, rf, c]]
+            else [g, ph, fit, [rg, rp, rf, c]]) := by
+  have hg := C01_src_thefittest_get rg rp rf c
+  cases elitism with
+  | false => simp [SHAGA_from_population_g_to_fitness, hrec, Imp.geti]
+  | true =>
+    obtain ⟨h1, h2, h3⟩ := hne rfl
+    have e1 : g.isEmpty = false := by cases g <;> simp_all
+    have e2 : ph.isEmpty = false := by cases ph <;> simp_all
+    have e3 : fit.isEmpty = false := by cases fit <;> simp_all
+    have gg : ∀ (a b c' : Int), Imp.geti [a, b, c'] (0 : Int) = a ∧ Imp.geti [a, b, c'] (1 : Int) = b ∧ Imp.geti [a, b, c'] (2 : Int) = c' :=
+      fun _ _ _ => ⟨rfl, rfl, rfl⟩
+    simp [SHAGA_from_population_g_to_fitness, hrec, hg, e1, e2, e3, (gg rg rp rf).1, (gg rg rp rf).2.1, (gg rg rp rf).2.2]
 
 end TFV.SrcTie
